@@ -1,0 +1,116 @@
+//go:build verif
+
+// Contracts for the deductive verification of this package (comment-only; built only with -tags verif).
+
+package multiendpoint
+
+//@ import time "time"
+
+//@ autotag nopanic multiendpoint.go C13
+//@ autotag nopanic endpoint.go C13
+//@ autotag lock multiendpoint.go C13 C10
+//@ autotag term multiendpoint.go C13
+//@ autotag race * C10
+//@ autotag reach * C13
+
+// ---------------------------------------------------------------- protection classes (C10)
+
+//@ protect multiEndpoint.{endpoints,current,future} guarded_by multiEndpoint.RWMutex
+//@ protect multiEndpoint.{recoveryTimeout,switchingDelay} immutable
+//@ protect endpoint.{id} immutable
+//@ protect endpoint.{priority,status,lastChange,futureChange} guarded_by multiEndpoint.RWMutex
+//@ tracked endpoint
+//@ globalinv timeNow != nil && timeAfterFunc != nil
+
+// ---------------------------------------------------------------- MEInv (lock invariant of the embedded RWMutex)
+
+//@ inv multiEndpoint.RWMutex M0 [C13] := this.endpoints != nil
+//@ inv multiEndpoint.RWMutex M1 [C13] := forall id, e in this.endpoints :: e != nil && isa(e) && e.id == id
+//@ inv multiEndpoint.RWMutex M2 [C13] := this.current in this.endpoints
+//@ inv multiEndpoint.RWMutex M4 [C13 C14] := forall id, e in this.endpoints :: e.status == recovering ==> this.recoveryTimeout != 0
+
+//@ inv multiEndpoint.RWMutex M5 [C13] := this.endpoints[this.current].status == unavailable ==> noneAvail(this)
+//@ inv multiEndpoint.RWMutex M6 [C13] := this.switchingDelay == 0 ==> noneAvail(this) || bestAvail(this, this.current) || (this.endpoints[this.current].status == recovering && (forall id, e in this.endpoints :: e.status == available ==> e.priority > this.endpoints[this.current].priority))
+
+//@ dyn global:timeNow() (t)
+//@ dyn global:timeAfterFunc(d, f) (t)
+
+// ---------------------------------------------------------------- statement-level predicates (two-state: old = state at acquire)
+
+//@ pred noneAvail(me *multiEndpoint) := forall id, e in me.endpoints :: e.status != available
+//@ pred bestAvail(me *multiEndpoint, c string) := c in me.endpoints && me.endpoints[c].status == available && (forall id, e in me.endpoints :: e.status == available ==> me.endpoints[c].priority <= e.priority)
+//@ pred oldCurKept(me *multiEndpoint) := old(me.current) in me.endpoints
+// C13: the previously current endpoint is (now) unavailable and something is available => current is the best available one
+//@ pred c13SwitchNow(me *multiEndpoint) := oldCurKept(me) && me.endpoints[old(me.current)].status == unavailable && !noneAvail(me) ==> bestAvail(me, me.current)
+// C13: nothing available => current unchanged (if still in the list)
+//@ pred c13Sticky(me *multiEndpoint) := noneAvail(me) && oldCurKept(me) ==> me.current == old(me.current)
+// C13, no switching delay: recovering current endpoint stays unless a higher-priority endpoint is available; else the best available one
+//@ pred c13NoDelayRecovering(me *multiEndpoint) := me.switchingDelay == 0 && oldCurKept(me) && me.endpoints[old(me.current)].status == recovering && (forall id, e in me.endpoints :: e.status == available ==> e.priority > me.endpoints[old(me.current)].priority) ==> me.current == old(me.current)
+//@ pred c13NoDelayBest(me *multiEndpoint) := me.switchingDelay == 0 && !noneAvail(me) && !(oldCurKept(me) && me.endpoints[old(me.current)].status == recovering && (forall id, e in me.endpoints :: e.status == available ==> e.priority > me.endpoints[old(me.current)].priority)) ==> bestAvail(me, me.current)
+// C14: with a switching delay the call itself never moves away from a listed endpoint that is available or recovering
+//@ pred c14DelayHolds(me *multiEndpoint) := me.switchingDelay != 0 && oldCurKept(me) && me.endpoints[old(me.current)].status != unavailable ==> me.current == old(me.current)
+// C14: never from an available endpoint to a lower-priority one
+//@ pred c14NoDowngrade(me *multiEndpoint) := !(oldCurKept(me) && me.endpoints[old(me.current)].status == available && me.current != old(me.current) && me.endpoints[me.current].priority > me.endpoints[old(me.current)].priority)
+
+//@ func (me *multiEndpoint) Current
+//@   ensures [C13.current-member] result == me.current && result in me.endpoints
+//@ pred listed(me *multiEndpoint, list []string, upto int) := forall j, x in list :: j <= upto ==> x in me.endpoints && me.endpoints[x].priority == j
+//@ func (me *multiEndpoint) SetEndpoints
+//@   requires [C13.assume-nodup] forall j1, x1 in endpoints :: forall j2, x2 in endpoints :: j1 != j2 ==> x1 != x2
+//@   ensures [C13.reject-empty] len(endpoints) == 0 ==> result != nil && me.current == old(me.current) && (forall id string :: (id in me.endpoints) == old(id in me.endpoints))
+//@   ensures [C13.set-dom] len(endpoints) > 0 ==> result == nil && (forall j, x in endpoints :: x in me.endpoints) && (forall id in me.endpoints :: exists j, x in endpoints :: x == id)
+//@   ensures [C13.removed-first] len(endpoints) > 0 && noneAvail(me) && !oldCurKept(me) ==> me.current == endpoints[0]
+//@   ensures [C13.switch-now] c13SwitchNow(me)
+//@   ensures [C13.sticky] c13Sticky(me)
+//@   ensures [C13.nodelay-recovering] c13NoDelayRecovering(me)
+//@   ensures [C13.nodelay-best] c13NoDelayBest(me)
+//@   ensures [C14.delay-holds] c14DelayHolds(me)
+//@   ensures [C14.no-downgrade] c14NoDowngrade(me)
+//@   loop 1 invariant forall j, x in endpoints :: j <= $i ==> x in newEndpoints
+//@   loop 1 invariant forall k in newEndpoints :: exists j, x in endpoints :: j <= $i && x == k
+//@   loop 2 invariant lockinv(me.RWMutex, "M0", "M1", "M4")
+//@   loop 2 invariant forall id in me.endpoints :: $visited(id) ==> id in newEndpoints
+//@   loop 2 invariant forall id, e in me.endpoints :: old(id in me.endpoints) && e == old(me.endpoints[id])
+//@   loop 2 invariant forall id string :: {id in newEndpoints} old(id in me.endpoints) && id in newEndpoints ==> id in me.endpoints
+//@   loop 3 invariant lockinv(me.RWMutex, "M0", "M1", "M4")
+//@   loop 3 invariant forall id in me.endpoints :: id in newEndpoints
+//@   loop 3 invariant listed(me, endpoints, $i)
+//@   loop 3 invariant forall id, e in me.endpoints :: old(id in me.endpoints) ==> e == old(me.endpoints[id])
+//@   loop 3 invariant forall id string :: {id in newEndpoints} old(id in me.endpoints) && id in newEndpoints ==> id in me.endpoints
+//@ func (me *multiEndpoint) SetEndpointAvailability
+//@   ensures [C13.switch-now] c13SwitchNow(me)
+//@   ensures [C13.sticky] c13Sticky(me)
+//@   ensures [C13.nodelay-recovering] c13NoDelayRecovering(me)
+//@   ensures [C13.nodelay-best] c13NoDelayBest(me)
+//@   ensures [C14.delay-holds] c14DelayHolds(me)
+//@   ensures [C14.no-downgrade] c14NoDowngrade(me)
+//@   ensures [C14.no-extend] !avail && old(e in me.endpoints && me.endpoints[e].status == recovering) ==> me.endpoints[e].status == recovering && me.endpoints[e].lastChange == old(me.endpoints[e].lastChange)
+//@   ensures [C14.available-cancels] avail && old(e in me.endpoints) ==> me.endpoints[e].status == available
+//@   ensures [C13.members-kept] forall id string :: (id in me.endpoints) == old(id in me.endpoints)
+//@ func (me *multiEndpoint) maybeUpdateCurrent
+//@   inline
+//@   loop 1 invariant topA != nil ==> topA.id in me.endpoints && me.endpoints[topA.id] == topA && topA.status == available && $visited(topA.id)
+//@   loop 1 invariant top != nil ==> top.id in me.endpoints && me.endpoints[top.id] == top && $visited(top.id)
+//@   loop 1 invariant forall id, e in me.endpoints :: $visited(id) && e.status == available ==> topA != nil && topA.priority <= e.priority
+//@   loop 1 invariant forall id, e in me.endpoints :: $visited(id) ==> top != nil && top.priority <= e.priority
+//@ func (me *multiEndpoint) switchFromTo$1
+//@   captures me != nil && me.switchingDelay != 0
+//@   ensures [C13.sticky] c13Sticky(me)
+//@   ensures [C14.no-downgrade] c14NoDowngrade(me)
+//@   ensures [C13.members-kept] forall id string :: (id in me.endpoints) == old(id in me.endpoints)
+//@ func (me *multiEndpoint) scheduleUnavailable$1
+//@   captures me != nil && e != nil
+//@   ensures [C13.switch-now] c13SwitchNow(me)
+//@   ensures [C13.sticky] c13Sticky(me)
+//@   ensures [C13.nodelay-recovering] c13NoDelayRecovering(me)
+//@   ensures [C13.nodelay-best] c13NoDelayBest(me)
+//@   ensures [C14.delay-holds] c14DelayHolds(me)
+//@   ensures [C14.no-downgrade] c14NoDowngrade(me)
+//@   ensures [C14.outdated-timer] old(e.lastChange) != stateChange ==> me.current == old(me.current) && e.status == old(e.status) && e.lastChange == old(e.lastChange)
+//@   ensures [C13.members-kept] forall id string :: (id in me.endpoints) == old(id in me.endpoints)
+//@ func NewMultiEndpoint
+//@   requires b != nil
+//@   ensures [C13.reject-empty] len(b.Endpoints) == 0 ==> $ret1 != nil
+//@   ensures [C13.new] len(b.Endpoints) > 0 ==> $ret1 == nil && $ret0 is *multiEndpoint && lockinv($ret0.(*multiEndpoint).RWMutex) && $ret0.(*multiEndpoint).current == b.Endpoints[0]
+//@   loop 1 invariant forall id, e in eMap :: e != nil && isa(e) && e.id == id && (e.status == recovering ==> me.recoveryTimeout != 0) && e.status != available
+//@   loop 1 invariant forall j, x in b.Endpoints :: j <= $i ==> x in eMap
